@@ -283,14 +283,16 @@ def annotate_fn(text, ann, clauses, fname):
                 else:
                     ins.append((pos + len(needle), 0, '\n' + w + '\n'))
     if ann.get('at_end'):
-        w = W('hint', ann['at_end'])
-        if w:
-            if ann.get('at_end_before_tail'):
-                last_nl = text.rfind('\n', ob, cb - 1)
-                pos = text.rfind('\n', ob, last_nl) + 1
-            else:
-                pos = cb
-            ins.append((pos, 0, w + '\n'))
+        ends = ann['at_end'] if isinstance(ann['at_end'], (list, tuple)) else [ann['at_end']]
+        for raw in reversed(ends):     # equal positions are emitted in reverse insertion order
+            w = W('hint', raw)
+            if w:
+                if ann.get('at_end_before_tail'):
+                    last_nl = text.rfind('\n', ob, cb - 1)
+                    pos = text.rfind('\n', ob, last_nl) + 1
+                else:
+                    pos = cb
+                ins.append((pos, 0, w + '\n'))
     exp = ann.get('expect')
     if exp:
         for k in exp:
